@@ -52,7 +52,7 @@ def graphs_module(tier):
         recs.append("[declR |-> %s, declW |-> %s, actR |-> %s, actW |-> %s, deps |-> %s]"
                     % (tla_fun(dr), tla_fun(dw), tla_fun(dr), tla_fun(dw), tla_fun(dp)))
     body = "---- MODULE Dispatch_MC ----\nEXTENDS Dispatch\nGraphsDef == {\n  " + ",\n  ".join(recs) + "}\n====\n"
-    d = os.path.join(C.OUT, "cfg")
+    d = os.path.join(C.OUT, "cfg", "p%d" % os.getpid())
     os.makedirs(d, exist_ok=True)
     open(os.path.join(d, "Dispatch.tla"), "w").write(open(os.path.join(C.SPEC, "Dispatch.tla")).read())
     open(os.path.join(d, "Dispatch_MC.tla"), "w").write(body)
@@ -100,7 +100,7 @@ def check(prop, tier, seed):
                             "systems": [{"shape": a, "deps": [], "spin": 5}, {"shape": b, "deps": [], "spin": 5},
                                         {"shape": a, "deps": [], "spin": 3}]})
             tid += 1
-    workdir = os.path.join(C.OUT, "work", key)
+    workdir = os.path.join(C.OUT, "work", "%s_%d" % (key, os.getpid()))
     C.sh(["rm", "-rf", workdir])
     r = C.exec_and_validate("dispatch", scripts, workdir, "Dispatch_Trace.tla", "Dispatch_Trace.cfg", events_per_chunk=40)
     res.update(n_scripts=r["n_scripts"], n_events=r["n_events"], wall_s=r["wall_s"])
